@@ -345,6 +345,17 @@ class Facts:
             return None
         return [v["name"] for v in a["variants"]]
 
+    def is_workspace_type(self, ty):
+        """does the pretty type name a struct / enum defined in the analysed workspace?"""
+        if not hasattr(self, "_ws_pretty"):
+            self._ws_pretty = set()
+            for k, a in self.adts.items():
+                if a.get("local"):
+                    q = strip_generics(a.get("pretty", k)).split("::")
+                    self._ws_pretty.add((q[0], q[-1]))          # types print by their visible (re-exported) path
+        q = strip_generics(ty).split("::")
+        return (q[0], q[-1]) in self._ws_pretty
+
     def fn_bodies(self, crate=None):
         for p, b in self.bodies.items():
             if b.kind in ("fn", "closure") and (crate is None or b.crate == crate):
